@@ -100,7 +100,7 @@ def run_walk_faults(tier, v):
         orig = sc.source_bytes()
         bad_dirs = [o.path[len("$R0/src"):].lstrip("/") for o in x.trace if o.op in ("opendir", "readdir") and o.errno != 0 and o.path.startswith("$R0/src")]
         reachable = [f for f in orig if not any(d == "" or f.startswith(d + "/") for d in bad_dirs)]
-        rep = cli.Report(x.stdout)
+        rep = cli.Report(x.stdout, names=list(orig), err=x.stderr)
         reported = {f.split("/src/", 1)[-1] for f, _, _ in rep.missing}
         v.distinct((sc.name, fsx.plan_str(x.plan)))
         outcomes.add((x.exit, len(reachable), len(rep.missing)))
@@ -175,7 +175,7 @@ def run_timestamps(tier, v):
         v.distinct(("timestamps", src_t, lock_t, lock, structured, mode_bits))
         rc, _ = res["check"]
         re_, after = res["edit"]
-        rep = cli.Report(rc.stdout)
+        rep = cli.Report(rc.stdout, names=list(files), err=rc.stderr)
         inserted = {}
         ok = True
         for k, orig in files.items():
